@@ -8,17 +8,22 @@ from .models_std import model, Str, as_str, MODELS
 
 
 class DateTimeV:
-    """chrono NaiveDateTime / DateTime<Tz>: an i64 count of seconds (UTC timestamp of the naive value)"""
-    __slots__ = ('ts',)
+    """chrono NaiveDateTime / DateTime<Tz>: an i64 count of seconds (UTC timestamp of the naive value) plus, optionally, the
+    sub-second part in nanoseconds (file times have one; literals do not). `timestamp()` is the seconds; comparisons of the values
+    themselves see the fraction"""
+    __slots__ = ('ts', 'ns')
 
-    def __init__(self, ts):
-        self.ts = ts
+    def __init__(self, ts, ns=None):
+        self.ts, self.ns = ts, ns
 
     def __repr__(self):
         return 'DateTime(%s)' % self.ts
 
+    def frac(self):
+        return self.ns if self.ns is not None else BitVecVal(0, 32)
+
     def eq_model(self, ctx, other):
-        return self.ts == other.ts
+        return And(self.ts == other.ts, self.frac() == other.frac())
 
     def clone_model(self, ctx):
         return self
@@ -36,9 +41,12 @@ def m_timestamp(ctx, args, callee):
 
 @model(r'^<NaiveDateTime as (PartialOrd|PartialEq|Ord)>::(lt|le|gt|ge|eq|ne)$|^<chrono::NaiveDateTime as (PartialOrd|PartialEq|Ord)>::(lt|le|gt|ge|eq|ne)$')
 def m_dt_cmp(ctx, args, callee):
-    a = ctx.deref(args[0]).ts; b = ctx.deref(args[1]).ts
+    x = ctx.deref(args[0]); y = ctx.deref(args[1])
+    a, b = x.ts, y.ts
+    fa, fb = x.frac(), y.frac()
+    lt = Or(a < b, And(a == b, z3.ULT(fa, fb))); eq = And(a == b, fa == fb)
     k = callee.rsplit('::', 1)[1]
-    return {'lt': a < b, 'le': a <= b, 'gt': a > b, 'ge': a >= b, 'eq': a == b, 'ne': a != b}[k]
+    return {'lt': lt, 'le': Or(lt, eq), 'gt': Not(Or(lt, eq)), 'ge': Not(lt), 'eq': eq, 'ne': Not(eq)}[k]
 
 
 class RegexV:
